@@ -35,6 +35,8 @@ RULE = (
     "Non-trivial: l_max >= 2 and at least one point off the poles (values, mp, addition, deriv, solid: also r > 0); "
     "cart2sph: a non-zero centre and at least one point different from it. distinct = distinct descriptor."
 )
+RULE = RULE + " " + 'values-many: 200-6000 points at l_max <= 80 in one call; cart2sph: 40 % integer-dtype lattice points; polar derivative compared for |tan phi| >= 5e-10.'
+
 ASSUMPTIONS = [
     "documented convention: Y_lm = N_lm P_l^|m|(cos phi) {1, sqrt2 cos(m theta), sqrt2 sin(|m| theta)}, theta azimuth, phi polar, "
     "no Condon-Shortley phase, orthonormal, rows m = 0,1,-1,...,l,-l (Horton 2)",
